@@ -58,7 +58,9 @@ PairFloats == {FNegZero, FOneP, FMinusTwoHalf, FTenth, F2p53, F1e19, FInf, FNaN}
 PairPool == {VInt(i) : i \in (IF PoolName = "quick" THEN PairInts ELSE Ints)}
             \cup {VFloat(f) : f \in (IF PoolName = "quick" THEN PairFloats ELSE Floats)}
             \cup {VStr(s) : s \in (IF PoolName = "quick" THEN {<<>>, Sab, SMixed} ELSE Strings)}
-            \cup {VBool(TRUE), VEmpty, VTuple(<<VNat(1), VNat(2)>>), VTuple(<<VTuple(<<VNat(1)>>), VStr(Sa)>>)}
+            \cup {VBool(TRUE), VEmpty, VTuple(<<VNat(1), VNat(2)>>), VTuple(<<VTuple(<<VNat(1)>>), VStr(Sa)>>),
+                  \* a scalar that is found, followed by an element that is not allowed (contains_any must still reject it)
+                  VTuple(<<VNat(2), VTuple(<<VNat(1)>>)>>), VTuple(<<VNat(7), VNat(2)>>)}
             \cup (IF PoolName = "quick" THEN {} ELSE {VBool(FALSE), VTuple(<<>>), VTuple(<<VFloat(FOneP), VStr(Sa), VBool(TRUE), VEmpty>>)})
 TriplePool == {VInt(Zero), VInt(FromInt(1)), VInt(FromInt(3)), VInt(FromInt(-1)), VFloat(FOneHalf), VStr(SMixed),
                VBool(TRUE), VBool(FALSE)}
